@@ -94,6 +94,17 @@ func keyEmuScenarios(big, withMapping bool) []*Desc {
 	return out
 }
 
+// keyEmuCoincideScenario: transposition between the two presses makes both directions play the SAME pitch (60 and 62, two
+// semitones down in between), with direct jumps between the directions
+func keyEmuCoincideScenario(mode string) *Desc {
+	d := base("keyemu-hat-same-pitch", mode)
+	d.Mappings = []MapDesc{{Name: "M0", Keys: km{K1: {40, 0}},
+		Axes: []AxisDesc{{Name: "ABS_HAT0X", Type: "key", Note: 60, NoteNeg: 62, Min: -1, Max: 1, Deadzone: 0, Pos: []int32{-1, 0, 1}}}}}
+	acts(d, SD, "semitone_down", SU, "semitone_up")
+	d.SemLo, d.SemHi = -2, 0
+	return d
+}
+
 // keyEmuSubScenario: two sub-handlers of one device deliver the same axis code, both emulate keys with it
 func keyEmuSubScenario() *Desc {
 	d := base("keyemu-subhandlers", "interrupt")
@@ -259,6 +270,29 @@ func (k *keyEmu) Step(c *StepCtx) {
 		}
 		if !okk {
 			c.viol("keyemu-lifecycle", fmt.Sprintf("%s (position %s on the -1..1 scale, sounding before: %v): emitted %v, expected %v (+ optionally %v)", c.Ev.String(c.S.Alpha), v.FloatString(3), k.snd, got, need, mayOff))
+			return
+		}
+	}
+	// the messages of the step in their order, as the receiver hears them: every direction that must sound after the
+	// step really sounds (a Note Off for the direction being left must not cut a Note On of the same pitch sent before it)
+	// (only the two directions of THIS axis: pitches shared with other axes or keys are a collision matter, C03)
+	sim := map[[2]int]bool{}
+	for dk, q := range k.snd {
+		if dk == pk || dk == nk {
+			sim[q] = true
+		}
+	}
+	for _, m := range c.Msgs {
+		switch pm := parse(m); pm.kind {
+		case kOn:
+			sim[[2]int{pm.ch, pm.a}] = true
+		case kOff:
+			delete(sim, [2]int{pm.ch, pm.a})
+		}
+	}
+	for dirKey, q := range next {
+		if (dirKey == pk || dirKey == nk) && !sim[q] {
+			c.viol("keyemu-note-cut", fmt.Sprintf("%s: %s must sound ch%d/%d after this step, but the messages %v leave it silent at the receiver (sounding before: %v)", c.Ev.String(c.S.Alpha), dirKey, q[0]+1, q[1], got, k.snd))
 			return
 		}
 	}
